@@ -160,6 +160,12 @@ VARIANTS = [
     keep('P-new-readonly-method', (S, "    def _getTerm(self):\n        return self.__raftCurrentTerm\n", "    def _getTerm(self):\n        return self.__raftCurrentTerm\n\n    def _getVotedFor(self):\n        return self.__votedForNodeId\n")),
     keep('P-send-wrapped-in-try', (S, "                    self.__transport.send(node, {\n                        'type': 'response_vote',\n                        'term': message['term'],\n                    })", "                    try:\n                        self.__transport.send(node, {\n                            'type': 'response_vote',\n                            'term': message['term'],\n                        })\n                    except Exception:\n                        logger.exception('failed to send vote')")),
 
+    keep('P-lockmanager-rename-unlock', (B, '__autoUnlockTime', '__ttl')),
+    keep('P-clock-time-monotonic', (S, 'from .monotonic import monotonic as monotonicTime', 'from time import monotonic as clockNow'), (S, 'monotonicTime()', 'clockNow()')),
+    keep('P-cancel-method-renamed', (SER, 'cancelTransmisstion', 'forgetTransfer'), (S, 'cancelTransmisstion', 'forgetTransfer')),
+    keep('P-ids-sorted-in-place', (S, "        for ver, _, method, obj in sorted(methodsToEnumerate):", "        methodsToEnumerate.sort()\n        for ver, _, method, obj in methodsToEnumerate:")),
+    keep('P-journal-offset-plain-add', (J, "        self.__currentOffset += len(cmdData)", "        self.__currentOffset = self.__currentOffset + len(cmdData)")),
+
     # ------------------------------------------------------------------ property-breaking variants
     brk('B-leader-append-no-plus1', ['C01'], 'R-leader-append-position', (S, "                idx, term = self.__getCurrentLogIndex() + 1, self.__raftCurrentTerm\n\n                if self.__conf.dynamicMembershipChange:", "                idx, term = self.__getCurrentLogIndex(), self.__raftCurrentTerm\n\n                if self.__conf.dynamicMembershipChange:")),
     brk('B-no-noop-on-election', ['C03'], 'R-leader-append-position', (S, "        self.__raftLog.add(_bchr(_COMMAND_TYPE.NO_OP), idx, term)\n        self.__noopIDx = idx", "        self.__noopIDx = idx")),
